@@ -105,7 +105,8 @@ def C08():
     jobs += _jobs("r_reg_spl", "lincomb_suite", [3], nmax=3)
     jobs += _jobs("r_reg_spl", "arithmetic_suite", [3, 4], nmax=4, order_pairs=((1, 1),))[:-1]   # incl. equal grids held
     #                                                                                in distinct objects
-    tot += r_reg.run_jobs(chk, u, "R-REG.refuse", jobs)
+    tot += r_reg.run_jobs(chk, u, "R-REG.refuse", jobs, view=r_reg.clause_view(
+        "different grid", "differing grids", "DIFFERING_GRIDS", "is refused with", "leaves both operands"))
     # an object that was assigned from another grid IS on that grid afterwards (else later operations compare against a
     # stale grid: wrongly accepted with the former grid, wrongly refused with the real one)
     tot += r_reg.run_jobs(chk, u, "R-REG.refuse", _jobs("r_reg_spl", "validity_suite", [3], nmax=3),
@@ -206,9 +207,11 @@ def _expr_ownership(chk, fwd=False):
     chk.units.append("lvalue")
     _ro.expression_members(chk, units)
     _ro.returned_references(chk, units)
-    _ro.api_returns(chk, units)
-    _ro.api_params(chk, units)
-    _ro.borrowed_shared(chk, units)
+    # (the contract tables are consulted for the operator / form layer only: these checks are about operator application)
+    layer = lambda pf: "/operators/" in pf or pf.endswith(("/integration/BilinearForm.h", "/integration/LinearForm.h"))
+    _ro.api_returns(chk, units, files=layer)
+    _ro.api_params(chk, units, files=layer)
+    _ro.borrowed_shared(chk, units, scope=lambda f: f.in_lib() and layer(f.decl.get("pfile", "")))
     need = ["R-OWN.field", "R-LIFE.ret", "R-API.ret", "R-API.param", "R-OWN.borrow"]
     if fwd:
         n = _rg.forwarding(chk, units)
